@@ -69,6 +69,7 @@ class PassAnalysis:
         self.result = returned_list(self.fn)
         _, self.loop, self.paths = loop_paths(facts, self.fn)
         self.item = ('item', self.loop.target.id) if isinstance(self.loop.target, ast.Name) else None
+        self.pos_var = self.find_position_var()
         self.mn_classes = mnemonic_classes(facts)
         self.rows = [self.row(p) for p in self.paths]
         # classes whose size() is a name-indexed table: one walk per table key (the name decides the size)
@@ -104,6 +105,23 @@ class PassAnalysis:
                 todo.extend(y for y in x if isinstance(y, tuple))
         return out
 
+    def find_position_var(self):
+        """The running-offset variable: a local initialised to the constant 0 before the loop and advanced by += inside it."""
+        zero = set()
+        for st in self.fn.body:
+            if st is self.loop:
+                break
+            if isinstance(st, ast.Assign) and len(st.targets) == 1 and isinstance(st.targets[0], ast.Name) \
+                    and isinstance(st.value, ast.Constant) and st.value.value == 0 and not isinstance(st.value.value, bool):
+                zero.add(st.targets[0].id)
+        adv = {}
+        for n in ast.walk(self.loop):
+            if isinstance(n, ast.AugAssign) and isinstance(n.op, ast.Add) and isinstance(n.target, ast.Name) and n.target.id in zero:
+                adv[n.target.id] = adv.get(n.target.id, 0) + (2 if 'size' in unparse(n.value) else 1)
+        if not adv:
+            return None
+        return max(adv, key=lambda k: adv[k])
+
     def row(self, path):
         acc = account(path, self.result)
         st = path
@@ -134,7 +152,7 @@ class PassAnalysis:
         advance = LinS()
         pos_var = None
         for (var, op, rhs, node, idx) in acc.advances:
-            if var == 'position' or (pos_var is None and var.startswith('pos')):
+            if var == self.pos_var:
                 pos_var = var
                 term = self.sizes.lin(rhs, st)
                 advance = advance + (term if op == '+' else term.scale(-1))
@@ -180,7 +198,7 @@ def check_conservation(report, pa, rule, expect_label_writes):
         else:
             report.ok(rule + '.conserve', inst + ': {} = {} + {}'.format(r['consumed'], r['appended'], r['delta']))
         # position tracking
-        has_pos = any(isinstance(n, ast.Name) and n.id == 'position' for n in ast.walk(pa.fn))
+        has_pos = pa.pos_var is not None
         if has_pos:
             if not (r['advance'] - r['appended']).is_zero():
                 report.fail(Finding(rule + '.position', fname, node,
@@ -193,9 +211,8 @@ def check_conservation(report, pa, rule, expect_label_writes):
             p = u['parsed']
             n = u['node']
             if p is None:
-                report.fail(Finding(rule + '.shift-shape', fname, n, 'label update is not of the form {k: v - d for k, v in labels.items() if v > position}',
-                                    line=n.lineno), instance=inst)
-                continue
+                raise AnalysisError('{}: label update at line {} is not of a form the layout rules can follow '
+                                    '({{k: v - d for k, v in labels.items() if v > position}}): no verdict'.format(fname, n.lineno))
             problems = []
             if not p['key_ok']:
                 problems.append('keys are rewritten')
@@ -204,7 +221,7 @@ def check_conservation(report, pa, rule, expect_label_writes):
             if d is not None and not d.is_zero():
                 if p['op'] != '>':
                     problems.append('labels are selected with `{}` instead of `>` the item start (a label *at* the item start must not move, every later one must)'.format(p['op']))
-                if p['rhs'] != ('lv', 'position'):
+                if p['rhs'] != ('lv', pa.pos_var):
                     problems.append('the shift is taken relative to {} instead of the offset at which the item starts'.format(show(p['rhs'])))
             if d is not None and d.is_const() and d.const < 0:
                 problems.append('labels are moved up by {}'.format(-d.const))
